@@ -76,6 +76,7 @@ func applyProfile(w *World, p *Profile) {
 	w.CheckPins = p.CheckPins
 	w.RecordIO = p.recordIO
 	w.AdvValues = p.AdvValues
+	w.Env.KeepReads = p.CheckReads
 	w.installMonitors()
 }
 
